@@ -48,6 +48,14 @@ def axioms() -> list[z3.BoolRef]:
     return ax
 
 
+_OPAQUE: dict = {}
+
+
+def opaque_axioms() -> list:
+    """Definitional axioms of the named spec predicates registered so far (see _Sym.opaque)."""
+    return [ax for _, ax in _OPAQUE.values()]
+
+
 def lemma_axioms() -> list[z3.BoolRef]:
     """Lemmas about the spec functions.  Each is proved separately by induction in lemmas.py on every run;
     here they are made available to the VCs as hypotheses."""
@@ -76,12 +84,17 @@ def lemma_axioms() -> list[z3.BoolRef]:
     # P1: prod split at the lower end: a<b => prod(s,a,b) = s[a]*prod(s,a+1,b)
     out.append(z3.ForAll([s, a, b], z3.Implies(a < b, f_prod(s, a, b) == z3.Select(s, a) * f_prod(s, a + 1, b)),
                          patterns=[f_prod(s, a, b)]))
-    # L9: congruence: arrays that agree on [0,j) have the same count there
-    m2 = z3.Const("m2", BoolArr)
-    out.append(z3.ForAll([m, m2, j], z3.Implies(
-        z3.And(j >= 0, z3.ForAll([i], z3.Implies(z3.And(0 <= i, i < j), z3.Select(m, i) == z3.Select(m2, i)))),
-        f_cnt(m, j) == f_cnt(m2, j)), patterns=[z3.MultiPattern(f_cnt(m, j), f_cnt(m2, j))]))
     return out
+
+
+def l9_instance(A, B):
+    """L9 (congruence of cnt, proved by induction in lemmas.py) for two given arrays: if they agree on [0,k) they have
+    the same count there.  Triggered on count terms of B only (B: the spec array a contract talks about; A: the filter
+    array the engine made for a comprehension) - as a global lemma it would be instantiated for every pair of arrays."""
+    i, k = z3.Int("l9_i"), z3.Int("l9_k")
+    return z3.ForAll([k], z3.Implies(
+        z3.And(k >= 0, z3.ForAll([i], z3.Implies(z3.And(0 <= i, i < k), z3.Select(A, i) == z3.Select(B, i)))),
+        f_cnt(A, k) == f_cnt(B, k)), patterns=[f_cnt(B, k)])
 
 
 class _ArrView:
@@ -297,6 +310,19 @@ class _Sym:
         ax = z3.ForAll([i], z3.Select(arr, i) == pred(i), patterns=[z3.Select(arr, i)])
         return _ArrView(arr), ax
 
+    def opaque(self, name: str, args: list, body: Callable):
+        """A named spec predicate: an uninterpreted symbol plus its definitional axiom  name(args) <=> body(args),
+        triggered only on occurrences of the symbol.  Formulas then mention the predicate as an atom (the solver matches
+        atoms instead of re-deriving nested quantifiers); the definition is unfolded where an occurrence needs it."""
+        vals = [wrap(x) for x in args]
+        key = (name, tuple(v.ty.name for v in vals))
+        if key not in _OPAQUE:
+            f = z3.Function(name, *[v.ty.sort() for v in vals], z3.BoolSort())
+            bound = [z3.Const(f"{name}#{i}", v.ty.sort()) for i, v in enumerate(vals)]
+            b = body(*[unwrap(Val(v.ty, c)) for v, c in zip(vals, bound)])
+            _OPAQUE[key] = (f, z3.ForAll(bound, f(*bound) == b, patterns=[f(*bound)]))
+        return _OPAQUE[key][0](*[v.t for v in vals])
+
     # uninterpreted spec functions with an executable definition on the CONC side
     def uf(self, name: str, ret: Ty, *args):
         vals = [wrap(x) for x in args]
@@ -332,6 +358,9 @@ CONC_IMPL: dict[str, Callable] = {}  # name -> python implementation of an unint
 class _Conc:
     """Concrete interpretation on real Python objects."""
     symbolic = False
+
+    def opaque(self, name, args, body):
+        return bool(body(*args))
 
     def uf(self, name, ret, *args):
         return CONC_IMPL[name](*args)
